@@ -33,6 +33,8 @@ def line_rules(F, rep, rule="LINE"):
     # locate `line += 1` sites and the condition they are under
     explicit = set()      # token variants named by the guarding condition
     per_newline = {"then": False, "else": False, "always": False}
+    counted_only_for = set()
+    restricted = [False]
     guard_if = None
     n_adv = 0
     for n, parents in walk(clo["body"]):
@@ -53,6 +55,12 @@ def line_rules(F, rep, rule="LINE"):
                 not any(c["m"] in ("lines", "split") for c in nodes(inc, "MethodCall"))
             if (loop is not None and one and _counts_newlines(loop["iter"])) or (loop is None and counts):
                 per_newline[branch] = True
+                # a further token-kind test around the counting (`if matches!(token, Token::String(_))`) restricts it
+                for inner in ifs[1:]:
+                    kinds = _token_kinds_tested(fl, inner["c"])
+                    if kinds is not None and any(x is n for x in nodes(inner["t"])):
+                        counted_only_for.update(kinds)
+                        restricted[0] = True
             elif loop is None and one:
                 # guarded by a token test
                 cond = fl.trace(guard_if["c"]) if guard_if is not None else None
@@ -76,13 +84,17 @@ def line_rules(F, rep, rule="LINE"):
             rep.ob(rule, "lockstep|%s#%d" % (branch, n_adv), sets_ln,
                    "where `line` advances, `last_newline` is updated in the same block (column origin moves with the line)", line_of(n))
     rep.floor(rule, "line-advance sites", n_adv, 1)
+    # unmatched input becomes an Error token; when some pattern can run over a newline before it fails to complete (an
+    # unterminated string), that Error token contains newlines too
+    if any(tk.rules[v]["kind"] == "regex" for v in capable) and any(tk.rules[n_]["kind"] == "error" for n_ in tk.order):
+        capable = capable + [n_ for n_ in tk.order if tk.rules[n_]["kind"] == "error"]
     for v in capable:
         single = tk.rules[v]["kind"] == "token" and tk.rules[v]["pattern"] == "\n"
         if v in explicit:
             ok = single or per_newline["then"]
             how = "explicitly (one newline per token)" if single else "explicitly"
         else:
-            ok = per_newline["else"] or per_newline["always"]
+            ok = (per_newline["else"] or per_newline["always"]) and (not restricted[0] or v in counted_only_for)
             how = "by counting the newlines inside the token" if ok else None
         rep.ob(rule, "advance|%s" % v, ok,
                ("Token::%s advances the line counter %s" % (v, how)) if ok else
@@ -90,6 +102,31 @@ def line_rules(F, rep, rule="LINE"):
                 "multi-line %s is reported on a too small line" % (v, tk.rules[v]["pattern"], sorted(explicit) or "nothing", v)),
                fn["sp"])
     return tk
+
+
+def _token_kinds_tested(fl, cond):
+    """token variants named by a condition such as `matches!(token, Token::String(_))` / `token == Token::X`; None if the
+    condition is not a test of the token kind"""
+    from hir import pat_alternatives, pat_variant
+    c = peel(cond)
+    if c.get("k") == "Path" and c.get("res") == "Local":
+        c = peel(fl.trace(c))
+    kinds = set()
+    if c.get("k") == "Match":
+        for arm in c["arms"]:
+            if peel(arm["body"]).get("v") is True:
+                for alt in pat_alternatives(arm["pat"]):
+                    v = pat_variant(alt)
+                    if v and "::Token::" in v:
+                        kinds.add(last(v))
+        return kinds or None
+    if c.get("k") == "Binary" and c.get("op") == "Eq":
+        for side in (c["l"], c["r"]):
+            s_ = peel(side)
+            if s_.get("k") == "Path" and s_.get("res") == "Def" and "::Token::" in norm_path(s_["path"]):
+                kinds.add(last(norm_path(s_["path"])))
+        return kinds or None
+    return None
 
 
 def _counts_newlines(it):
